@@ -12,6 +12,7 @@ import pickle
 from .. import app, common, e1
 from ..cluster import Cluster
 from ..cworld import ClientWorld
+from ..introspect import callbacks_of, client_partial_packet
 from ..worlds import ServerWorld
 
 NSS = ['/', '/x']
@@ -371,8 +372,8 @@ class ClientModel:
                 'cbs': list(w.cbs),
                 'state': (c.connected, sorted(c.namespaces.items()),
                           sorted((ns, sorted(repr(k) for k in d))
-                                 for ns, d in c.callbacks.items()),
-                          c._binary_packet is not None, c.sid,
+                                 for ns, d in callbacks_of(c).items() if d),
+                          client_partial_packet(c) is not None, c.sid,
                           w.eio.state),
                 'task_errors': sorted(
                     [e.split('(')[0] for e in w.task_errors] +
@@ -737,7 +738,9 @@ def simple_client_parity(result):
                     result.violation(
                         'C14/simple-client', f'script {script}: SimpleClient '
                         f'{a!r}, AsyncSimpleClient {b!r}',
-                        {'script': script})
+                        {'script': script, 'rerun': {
+                            'module': 'mc.checks.c14',
+                            'func': 'rerun_simple'}})
                     break
     return n
 
@@ -775,3 +778,8 @@ def run(tier, seed, result):
              'stale API calls, bad channel items) is applied to both',
         explanation=' | '.join(notes),
         exhaustive=False)
+
+
+def rerun_simple(result):
+    common.setup_imports()
+    simple_client_parity(result)
